@@ -115,6 +115,15 @@ fn cells() -> Vec<Value> {
             id += 1;
         }
     }
+    // a certified peer that sends no server name in its TLS hello is certified all the same
+    v.push(json!({"cell": id, "pass": "forward", "family": "no-server-name"}));
+    id += 1;
+    // a server whose CA file is a bundle of two CAs of the bundled generator (a rotation):
+    // clients of either may register, in either order of the bundle; others may not
+    for order in ["old-new", "new-old"] {
+        v.push(json!({"cell": id, "pass": "forward", "family": "ca-rotation-bundle", "bundle_order": order}));
+        id += 1;
+    }
     // a server whose CA file holds no usable trust anchor certifies nobody
     for variant in ["pem-text-under-a-der-name", "truncated-der", "empty-file", "garbage", "private-key-as-ca", "pem-without-certificates"] {
         v.push(json!({"cell": id, "pass": "forward", "family": "unusable-ca", "ca_file": variant}));
@@ -123,6 +132,58 @@ fn cells() -> Vec<Value> {
     // the generator writing into directories that already hold an earlier set
     v.push(json!({"cell": id, "pass": "forward", "family": "generator-rerun", "runs": 8}));
     v
+}
+
+async fn try_register(conn: anyhow::Result<RawConn>, topic: &str) -> bool {
+    let fut = async {
+        let c = conn?;
+        let tn = TopicName::try_from(topic).map_err(|e| anyhow::anyhow!("{e}"))?;
+        let (_s, first) = c.register(Frame::RegisterSubscriber(SubscriberPayload { topic: tn, retention_policy: 0, operations: vec![] })).await?;
+        anyhow::Ok(first == Some(Frame::Ok))
+    };
+    matches!(tokio::time::timeout(Duration::from_secs(20), fut).await, Ok(Ok(true)))
+}
+
+/// A T-certified raw peer that does not send the server-name extension, against the (T,T) server.
+async fn no_server_name(w: &World) -> Result<String, Fail> {
+    let addr = w.servers.iter().find(|s| s.0 == 'T' && s.1 == 'T').unwrap().2;
+    let with = try_register(RawConn::connect(addr, &w.t.ca, Some(&w.t.client)).await, "/c15ns/withsni").await;
+    let without = try_register(RawConn::connect_without_sni(addr, &w.t.ca, Some(&w.t.client)).await, "/c15ns/nosni").await;
+    let after = try_register(RawConn::connect(addr, &w.t.ca, Some(&w.t.client)).await, "/c15ns/aftersni").await;
+    if !with || !after {
+        return Err(fail("refused-trusted-peer", "via=raw:control", format!("control registrations of a certified peer around the no-server-name attempt: before {with}, after {after}")));
+    }
+    if !without {
+        return Err(fail("refused-trusted-peer", "via=raw:no-server-name", "a peer certified by the server's CA that sends no server name in its TLS hello could not register a stream (the same peer with a server name could)".into()));
+    }
+    Ok("registered".into())
+}
+
+/// The server verifies clients against a PEM bundle of two CAs produced by the bundled generator
+/// (same subject name, different keys).
+async fn rotation_bundle(w: &World, order: &str) -> Result<String, Fail> {
+    let class = format!("ca-bundle={order}");
+    let t2 = certs::bundled();
+    let (first, second) = if order == "old-new" { (&w.t.ca, &t2.ca) } else { (&t2.ca, &w.t.ca) };
+    let dir = certs::write_dir(&w.t.ca, &w.t.server);
+    std::fs::write(dir.join("ca.pem"), format!("{}{}", certs::pem(first), certs::pem(second))).map_err(|e| fail("setup", "write", e.to_string()))?;
+    let addr = net::start_server_with_ca(&dir, "ca.pem").map_err(|e| fail("setup", &class, format!("the server did not start with a two-CA bundle: {e}")))?;
+    // the server presents T's certificate: every client trusts T
+    let old = try_register(RawConn::connect(addr, &w.t.ca, Some(&w.t.client)).await, "/c15ns/rotold").await;
+    let new = try_register(RawConn::connect(addr, &w.t.ca, Some(&t2.client)).await, "/c15ns/rotnew").await;
+    let other = try_register(RawConn::connect(addr, &w.t.ca, Some(&w.o.client)).await, "/c15ns/rotother").await;
+    let nocert = try_register(RawConn::connect(addr, &w.t.ca, None).await, "/c15ns/rotnone").await;
+    if other || nocert {
+        return Err(fail("accepted-untrusted-peer", &format!("{class}:client={}", if other { "O" } else { "none" }), "the server verifies clients against a bundle of two CAs; a peer certified by neither registered a stream".into()));
+    }
+    if !old || !new {
+        return Err(fail(
+            "refused-trusted-peer",
+            &class,
+            format!("the server was started with a CA bundle of two certificate authorities made by the bundled generator ({order}); a client certified by the first-generation CA registered: {old}, by the second-generation CA: {new} - both chain to a CA the server was started with"),
+        ));
+    }
+    Ok("both-generations-registered".into())
 }
 
 /// The server is started with a CA file from which no trust anchor can be taken. Either it refuses
@@ -194,6 +255,44 @@ async fn generator_rerun(runs: usize) -> Result<String, Fail> {
     Ok("generated-sets-usable".into())
 }
 
+/// one cell of the matrix (or one of the extra families)
+async fn one_cell(w: Arc<World>, c: Value) -> (bool, Result<String, Fail>) {
+    if c["family"] == "generator-rerun" {
+        return (true, generator_rerun(c["runs"].as_u64().unwrap() as usize).await);
+    }
+    if c["family"] == "no-server-name" {
+        return (true, no_server_name(&w).await);
+    }
+    if c["family"] == "ca-rotation-bundle" {
+        return (true, rotation_bundle(&w, c["bundle_order"].as_str().unwrap()).await);
+    }
+    if c["family"] == "unusable-ca" {
+        return (true, unusable_ca(&w, c["ca_file"].as_str().unwrap()).await);
+    }
+    let sv = c["server_verifies_clients_against"].as_str().unwrap().chars().next().unwrap();
+    let sp = c["server_presents"].as_str().unwrap().chars().next().unwrap();
+    let trust = c["client_trusts"].as_str().unwrap().chars().next().unwrap();
+    let cid = c["client_identity"].as_str().unwrap().to_string();
+    let via = c["via"].as_str().unwrap().to_string();
+    let addr = w.servers.iter().find(|s| s.0 == sv && s.1 == sp).unwrap().2;
+    let topic = format!("/c15ns/cell{}", c["cell"]);
+    // registration may succeed iff each side presents a certificate chaining to the CA the other side was configured with
+    let should = trust == sp && (cid == "T" || cid == "O" || cid.ends_with("-bundle")) && cid.chars().next() == Some(sv);
+    let got = if via == "library" { attempt_lib(&w, addr, trust, &cid, &topic).await } else { attempt_raw(&w, addr, trust, &cid, &topic).await };
+    let class = format!("via={via}");
+    let r = match got {
+        Err(e) => Err(fail("setup", &class, e)),
+        Ok(g) if g == should => Ok(if g { "registered".to_string() } else { "refused".to_string() }),
+        Ok(true) => Err(fail(
+            "accepted-untrusted-peer",
+            &format!("{class}:client={cid}:{}", if trust != sp { "server-untrusted" } else { "client-untrusted" }),
+            format!("a stream was registered although it must not be: server verifies clients against CA {sv} and presents a certificate from CA {sp}; client trusts CA {trust} and presents identity '{cid}' ({} pass)", c["pass"].as_str().unwrap()),
+        )),
+        Ok(false) => Err(fail("refused-trusted-peer", &class, format!("a correctly certified pair could not register a stream: server ({sv},{sp}), client trusts {trust}, identity {cid} ({} pass)", c["pass"].as_str().unwrap()))),
+    };
+    (should || cid != "T", r)
+}
+
 pub async fn run(tier: &str, replaying: bool) -> ! {
     let mut rep = Reporter::new("C15", tier, "exploration");
     // fresh keys every run; world T is the bundled generator's output
@@ -208,37 +307,21 @@ pub async fn run(tier: &str, replaying: bool) -> ! {
     let w = Arc::new(w);
     let cs = filter_cells(cells());
     // sequential on purpose: the order of the cells is part of what is enumerated
+    // once several cells have failed the remaining ones are only recorded as skipped: on a server
+    // that has stopped accepting, every further cell would sit out its 15-25 s of patience
+    let failed = Arc::new(std::sync::atomic::AtomicUsize::new(0));
     let outs = run_matrix(cs, 1, |c| {
         let w = w.clone();
+        let failed = failed.clone();
         async move {
-            if c["family"] == "generator-rerun" {
-                return (true, generator_rerun(c["runs"].as_u64().unwrap() as usize).await);
+            if failed.load(std::sync::atomic::Ordering::SeqCst) >= 6 {
+                return (false, Ok("skipped-after-6-violations".to_string()));
             }
-            if c["family"] == "unusable-ca" {
-                return (true, unusable_ca(&w, c["ca_file"].as_str().unwrap()).await);
+            let (nt, r) = one_cell(w, c).await;
+            if r.is_err() {
+                failed.fetch_add(1, std::sync::atomic::Ordering::SeqCst);
             }
-            let sv = c["server_verifies_clients_against"].as_str().unwrap().chars().next().unwrap();
-            let sp = c["server_presents"].as_str().unwrap().chars().next().unwrap();
-            let trust = c["client_trusts"].as_str().unwrap().chars().next().unwrap();
-            let cid = c["client_identity"].as_str().unwrap().to_string();
-            let via = c["via"].as_str().unwrap().to_string();
-            let addr = w.servers.iter().find(|s| s.0 == sv && s.1 == sp).unwrap().2;
-            let topic = format!("/c15ns/cell{}", c["cell"]);
-            // registration may succeed iff each side presents a certificate chaining to the CA the other side was configured with
-            let should = trust == sp && (cid == "T" || cid == "O" || cid.ends_with("-bundle")) && cid.chars().next() == Some(sv);
-            let got = if via == "library" { attempt_lib(&w, addr, trust, &cid, &topic).await } else { attempt_raw(&w, addr, trust, &cid, &topic).await };
-            let class = format!("via={via}");
-            let r = match got {
-                Err(e) => Err(fail("setup", &class, e)),
-                Ok(g) if g == should => Ok(if g { "registered".to_string() } else { "refused".to_string() }),
-                Ok(true) => Err(fail(
-                    "accepted-untrusted-peer",
-                    &format!("{class}:client={cid}:{}", if trust != sp { "server-untrusted" } else { "client-untrusted" }),
-                    format!("a stream was registered although it must not be: server verifies clients against CA {sv} and presents a certificate from CA {sp}; client trusts CA {trust} and presents identity '{cid}' ({} pass)", c["pass"].as_str().unwrap()),
-                )),
-                Ok(false) => Err(fail("refused-trusted-peer", &class, format!("a correctly certified pair could not register a stream: server ({sv},{sp}), client trusts {trust}, identity {cid} ({} pass)", c["pass"].as_str().unwrap()))),
-            };
-            (should || cid != "T", r)
+            (nt, r)
         }
     })
     .await;
@@ -247,7 +330,7 @@ pub async fn run(tier: &str, replaying: bool) -> ! {
     finish(
         rep,
         outs,
-        "every cell of: server configuration (CA used to verify clients, CA of the certificate it presents) in {T,O}x{T,O} x client trust store {T,O} x client identity {T-certified, O-certified, self-signed, none, and T-/O-certified given as a PEM bundle 'leaf + issuing CA'} x peer {real client library, raw QUIC peer} (no-certificate only via the raw peer, bundles only via the library), run in a forward and a backward order within one process; T is the certificate set produced by the repository's bundled generator (fresh keys every run), O an independent CA. Oracle: a registration is answered Ok iff the server's certificate chains to the client's CA and the client's certificate chains to the server's CA. non-trivial = every cell except the plainly trusted pairs. Plus: the server started with a CA file that holds no usable trust anchor (PEM text under a .der name, truncated DER, empty, garbage, a private key, a PEM file without certificates) must either refuse to start or certify nobody (T-, O-certified, self-signed and certificate-less raw peers are all tried). Plus: the bundled generator is run 8 times into the same directories, and after every run its files must start a server and let a client register",
+        "every cell of: server configuration (CA used to verify clients, CA of the certificate it presents) in {T,O}x{T,O} x client trust store {T,O} x client identity {T-certified, O-certified, self-signed, none, and T-/O-certified given as a PEM bundle 'leaf + issuing CA'} x peer {real client library, raw QUIC peer} (no-certificate only via the raw peer, bundles only via the library), run in a forward and a backward order within one process; T is the certificate set produced by the repository's bundled generator (fresh keys every run), O an independent CA. Oracle: a registration is answered Ok iff the server's certificate chains to the client's CA and the client's certificate chains to the server's CA. non-trivial = every cell except the plainly trusted pairs. Plus: a certified raw peer that sends no server name in its TLS hello must register. Plus: a server whose CA file is a PEM bundle of two CAs made by the bundled generator (in both orders) must admit clients of either and nobody else. Plus: the server started with a CA file that holds no usable trust anchor (PEM text under a .der name, truncated DER, empty, garbage, a private key, a PEM file without certificates) must either refuse to start or certify nobody (T-, O-certified, self-signed and certificate-less raw peers are all tried). Plus: the bundled generator is run 8 times into the same directories, and after every run its files must start a server and let a client register",
         "finite configuration space enumerated completely, sequentially, in two orders",
         json!({}),
         replaying,
